@@ -315,6 +315,8 @@ def run_harness(lines, profile="debug", timeout=900):
     if not lines:
         return []
     exe = os.path.join(HARNESS, "target", profile, "vharness")
+    if os.environ.get("VERIF_HARNESS_EXE"):      # tools/coverage.py: an instrumented build of the same crate
+        exe = os.environ["VERIF_HARNESS_EXE"]
     n = min(NCPU, max(1, len(lines) // 50))
     chunks = [lines[i::n] for i in range(n)]
 
